@@ -16,8 +16,8 @@
                  Recovered: the parser result is what the sequence says.   *)
 EXTENDS Codec, TLC
 
-CONSTANTS Parser,     \* "syn" | "tcp"
-          IsAck,      \* BOOLEAN (syn only)
+CONSTANTS Parsers,    \* subset of {0, 1, 2}: 0 = ParseTCPOptions, 1 = ParseSynOptions(isAck = false),
+                      \* 2 = ParseSynOptions(isAck = true); chosen in Init (one TLC start covers all)
           Mode,       \* "lazy" | "eager" | "enc"
           MaxLen,     \* lazy/eager: string lengths 0..MaxLen
           MaxOps,     \* enc: options per sequence
@@ -25,8 +25,8 @@ CONSTANTS Parser,     \* "syn" | "tcp"
           Big,        \* enc: larger instance list
           Slack       \* 0 = transcription; 1 = seeded off-by-one (self-test)
 
-VARIABLES o, i, r, d, mx, sq
-vars == <<o, i, r, d, mx, sq>>
+VARIABLES pz, o, i, r, d, mx, sq
+vars == <<pz, o, i, r, d, mx, sq>>
 
 (* EOL NOP MSS WS SACKperm SACK TS kinds; 10 18 255 lengths (with 0..4); 171
    an unknown kind / data byte.  Every symbol may appear in every role. *)
@@ -34,17 +34,6 @@ Alphabet == {0, 1, 2, 3, 4, 5, 8, 10, 18, 171, 255}
 
 ASSUME Mode = "lazy" => MaxLen <= 9      \* a 10-byte option body would be chosen at once
 
-V1 == <<1, 2, 3, 4>>
-V2 == <<255, 254, 253, 252>>
-V3 == <<128, 0, 0, 127>>
-Blk(b) == <<b, 1, 2, 3, b, 4, 5, 6>>
-InstSmall == << <<"mss", 1460>>, <<"mss", 65535>>, <<"ws", 7>>, <<"ws", 15>>, <<"ts", V1, V2>>,
-                <<"sackperm">>, <<"sack", <<Blk(16)>> >>, <<"sack", <<Blk(32), Blk(33)>> >>,
-                <<"nop">>, <<"eol">>, <<"unk", 171, <<5>> >> >>
-InstBig == InstSmall \o
-           << <<"mss", 1>>, <<"mss", 258>>, <<"ws", 0>>, <<"ws", 14>>, <<"ws", 255>>, <<"ts", V3, V1>>,
-              <<"sack", <<Blk(48), Blk(49), Blk(50)>> >>, <<"sack", <<Blk(64), Blk(65), Blk(66), Blk(67)>> >>,
-              <<"unk", 30, <<>> >>, <<"unk", 254, <<0, 1>> >> >>
 Inst == IF Big THEN InstBig ELSE InstSmall
 PadModes == <<"none", "nop", "eol">>
 
@@ -54,37 +43,37 @@ OpsOf(ids) == [k \in DOMAIN ids |-> Inst[ids[k]]]
 Ops == OpsOf(sq[1])
 Cut == sq[3]
 
-Default == IF Parser = "syn" THEN SynDefault ELSE TcpDefault
-
 Init ==
-  /\ i = 0 /\ r = Default /\ mx = -1
+  /\ pz \in Parsers
+  /\ i = 0 /\ mx = -1
+  /\ r = IF pz = 0 THEN TcpDefault ELSE SynDefault
   /\ CASE Mode = "lazy"  -> sq = <<>> /\ \E n \in 0..MaxLen : o = [k \in 1..n |-> -1]
        [] Mode = "eager" -> sq = <<>> /\ \E n \in 0..MaxLen : o \in [1..n -> Alphabet]
        [] Mode = "enc"   -> \E ids \in IdSeqs, pm \in 1..3, cut \in 0..MaxCut :
                               LET b == EncSeq(OpsOf(ids), PadModes[pm]) IN
-                              /\ cut = 0 \/ cut < Len(b)
+                              /\ cut < (IF Len(b) = 0 THEN 1 ELSE Len(b))
                               /\ o = SubSeq(b, 1, Len(b) - cut)
                               /\ sq = <<ids, pm, cut>>
   /\ d = IF Len(o) = 0 THEN 1 ELSE 0
 
-Iter == IF Parser = "syn" THEN SynIter(o, i, r, IsAck, Alphabet, Slack)
-                          ELSE TcpIter(o, i, r, Alphabet, Slack)
+Iter == IF pz = 0 THEN TcpIter(o, i, r, Alphabet, Slack)
+                  ELSE SynIter(o, i, r, pz = 2, Alphabet, Slack)
 
 Next == /\ d = 0
         /\ \E out \in Iter : o' = out[1] /\ i' = out[2] /\ r' = out[3] /\ d' = out[4] /\ mx' = out[5]
-        /\ UNCHANGED sq
+        /\ UNCHANGED <<pz, sq>>
 
-Spec == Init /\ [][Next]_vars /\ WF_vars(Next)
+Spec == Init /\ [][Next]_vars
+FairSpec == Spec /\ WF_vars(Next)
 
 -----------------------------------------------------------------------------
 InBounds == mx < Len(o) /\ i >= 0 /\ i <= Len(o)            \* every read index < limit
 Progress == [][i' > i \/ d' # 0]_vars                         \* the cursor advances or the parser returns
-Terminates == <>(d # 0)
+NoStuck == d = 0 => Iter # {}                                 \* a running parser always has a next iteration
+Terminates == <>(d # 0)                                       \* (liveness: small configurations only)
 
 (* "the parser recovers every option an encoder sequence produced" *)
-Expect == IF Parser = "syn" THEN ExpectSyn(Ops, IsAck) ELSE ExpectTcp(Ops)
+Expect == IF pz = 0 THEN ExpectTcp(Ops) ELSE ExpectSyn(Ops, pz = 2)
 Recovered == (Mode = "enc" /\ d # 0 /\ Cut = 0) => (r = Expect /\ d \in {1, 2})
 
-(* exported for the replay: instances with their reference encoding *)
-InstTable == [k \in DOMAIN Inst |-> [op |-> Inst[k], bytes |-> EncOpt(Inst[k])]]
 =============================================================================
